@@ -6,6 +6,7 @@ import (
 	"fmt"
 	"sort"
 	"strings"
+	"sync"
 	"time"
 
 	"github.com/indexsupply/shovel/shovel"
@@ -220,6 +221,13 @@ func runC20(e *core.Env) error {
 		verdict, tags := managerScenario(ctx, rr, s)
 		e.Add(core.Case{Impl: verdict, Spec: "ok", Key: fmt.Sprintf("mgr %d %d", s, e.Seed), Nontrivial: true, Tags: append(tags, "manager-scenario")})
 	}
+	// ---- (2b) two configuration changes whose restarts OVERLAP: the second integration is stored after the
+	// first restart has read the configuration and before that restart returns (every position of the
+	// second request relative to the first one's reload is covered by where the hold is placed)
+	for s := 0; s < e.N(4, 24) && !e.OverBudget(); s++ {
+		verdict, tags := overlapScenario(ctx, s)
+		e.Add(core.Case{Impl: verdict, Spec: "ok", Key: fmt.Sprintf("mgr-overlap %d", s), Nontrivial: true, Tags: append(tags, "manager-overlapping-restarts")})
+	}
 	// a restart whose reload fails (an integration stored through the dashboard references an unknown
 	// source): the property wants exactly the configured tasks running; recorded finding: nothing runs
 	{
@@ -415,4 +423,168 @@ func keysOf(m map[string]bool) []string {
 	}
 	sort.Strings(out)
 	return out
+}
+
+// overlapScenario: restart A is held inside its reload (at the k-th database operation after it has read
+// shovel.integrations); meanwhile integration B is stored and restart B is requested. Once both
+// restarts have returned nil, exactly the configured pairs - B's included - must be running.
+func overlapScenario(ctx context.Context, s int) (string, []string) {
+	shovel.VerifEvents()
+	pg := fakepg.New()
+	url, _ := pg.Start()
+	cfgp, _ := pgxpool.ParseConfig(url)
+	cfgp.MaxConns = 10
+	pool, err := pgxpool.NewWithConfig(ctx, cfgp)
+	if err != nil {
+		return "setup: " + err.Error(), nil
+	}
+	node := simnode.NewNode(transferChain(4, uint64(300+s)))
+	defer func() {
+		pg.SetFaultHook(nil)
+		node.Close()
+		go pool.Close()
+		pg.Close()
+	}()
+	conf := config.Root{
+		Sources:      []config.Source{{Name: "s1", ChainID: 1, URLs: []string{node.URL() + "/nocache"}, PollDuration: 3 * time.Millisecond, BatchSize: 2}},
+		Integrations: []config.Integration{gIg{name: "iga", enabled: true, srcs: []string{"s1"}, refs: [][3]uint64{{0, 1, 0}}}.cfg()},
+	}
+	if err := config.ValidateFix(&conf); err != nil {
+		return "setup: " + err.Error(), nil
+	}
+	store := func(name string) {
+		g := gIg{name: name, enabled: true, srcs: []string{"s1"}, refs: [][3]uint64{{0, 1, 0}}}
+		root := config.Root{Integrations: []config.Integration{g.cfg()}}
+		config.ValidateFix(&root)
+		conn, _ := pool.Acquire(ctx)
+		config.Migrate(ctx, conn, root)
+		conn.Release()
+		pg.InsertRow("shovel.integrations", map[string]fakepg.Value{"name": name, "conf": fakepg.JSON(g.json())})
+	}
+	conn, _ := pool.Acquire(ctx)
+	if err := config.Migrate(ctx, conn, conf); err != nil {
+		conn.Release()
+		return "setup: " + err.Error(), nil
+	}
+	conn.Release()
+	// B's table exists beforehand (the dashboard flow does not create it)
+	{
+		g := gIg{name: "igB", enabled: true, srcs: []string{"s1"}, refs: [][3]uint64{{0, 1, 0}}}
+		root := config.Root{Integrations: []config.Integration{g.cfg()}}
+		config.ValidateFix(&root)
+		conn, _ := pool.Acquire(ctx)
+		config.Migrate(ctx, conn, root)
+		conn.Release()
+	}
+	mgr := shovel.NewManager(ctx, pool, conf)
+	go func() {
+		for {
+			mgr.Updates()
+		}
+	}()
+	ec := make(chan error)
+	go mgr.Run(ec)
+	if err := <-ec; err != nil {
+		return "first run: " + err.Error(), nil
+	}
+	time.Sleep(5 * time.Millisecond)
+	store("igA")
+	// hold restart A at the (s%6)-th database operation after its read of shovel.integrations
+	holdAt := s % 6
+	var mu sync.Mutex
+	armed, seenRead, after, held := true, false, 0, false
+	reached, release := make(chan struct{}), make(chan struct{})
+	pg.SetFaultHook(func(ev fakepg.Event) fakepg.Fault {
+		mu.Lock()
+		if !armed || held {
+			mu.Unlock()
+			return fakepg.NoFault
+		}
+		if !seenRead {
+			if strings.Contains(ev.SQL, "shovel.integrations") && ev.Kind == "query" {
+				seenRead = true
+			}
+			mu.Unlock()
+			return fakepg.NoFault
+		}
+		if after < holdAt {
+			after++
+			mu.Unlock()
+			return fakepg.NoFault
+		}
+		held = true
+		mu.Unlock()
+		close(reached)
+		select {
+		case <-release:
+		case <-time.After(3 * time.Second):
+		}
+		return fakepg.NoFault
+	})
+	aDone, bDone := make(chan error, 1), make(chan error, 1)
+	go func() { aDone <- mgr.Restart() }()
+	select {
+	case <-reached:
+	case <-time.After(2 * time.Second):
+		mu.Lock()
+		armed = false
+		mu.Unlock()
+		return "ok", []string{"hold-not-reached"} // restart A finished before the hold point: nothing overlapped
+	}
+	pg.InsertRow("shovel.integrations", map[string]fakepg.Value{"name": "igB", "conf": fakepg.JSON(gIg{name: "igB", enabled: true, srcs: []string{"s1"}, refs: [][3]uint64{{0, 1, 0}}}.json())})
+	go func() { bDone <- mgr.Restart() }()
+	var errA, errB error
+	bEarly := false
+	select {
+	case errB = <-bDone:
+		bEarly = true // B returned while A was still inside its reload
+	case <-time.After(40 * time.Millisecond):
+	}
+	close(release)
+	select {
+	case errA = <-aDone:
+	case <-time.After(5 * time.Second):
+		return "restart A did not return", nil
+	}
+	if !bEarly {
+		select {
+		case errB = <-bDone:
+		case <-time.After(5 * time.Second):
+			return "restart B did not return", nil
+		}
+	}
+	tags := []string{fmt.Sprintf("hold-at=%d", holdAt), fmt.Sprintf("b-returned-during-a=%v", bEarly)}
+	if errA != nil || errB != nil {
+		return fmt.Sprintf("restart returned an error: %v / %v", errA, errB), tags
+	}
+	time.Sleep(40 * time.Millisecond)
+	evs := shovel.VerifEvents()
+	running := map[string]int{}
+	var lastGen uint64
+	for _, ev := range evs {
+		key := ev.Src + "/" + ev.IG
+		switch ev.Kind {
+		case "run-begin":
+			lastGen = ev.Gen
+		case "task-start":
+			running[key]++
+		case "task-stop":
+			running[key]--
+		}
+	}
+	_ = lastGen
+	for _, want := range []string{"s1/iga", "s1/igA", "s1/igB"} {
+		switch {
+		case running[want] == 0:
+			return fmt.Sprintf("integration %s was stored before its Restart returned nil, but no runner drives it (running: %v)", want, running), tags
+		case running[want] > 1:
+			return fmt.Sprintf("pair %s has %d runners", want, running[want]), tags
+		}
+	}
+	for k, v := range running {
+		if v != 0 && k != "s1/iga" && k != "s1/igA" && k != "s1/igB" {
+			return "unexpected runner " + k, tags
+		}
+	}
+	return "ok", tags
 }
